@@ -154,6 +154,32 @@ def dtype_q(signed, n_word, n_frac):
     return '%s%d.%d' % ('Q' if signed else 'UQ', n_word - n_frac, n_frac)
 
 
+def parse_dtype(text):
+    """independent parser of the two documented notations -> (signed, n_word, n_frac, is_complex).
+    fxp-<s|u><n_word>/<n_frac>[-complex]   and   <Q|UQ|QU|S|U><m>[.<n>]  (n_word = m + n), any letter case."""
+    t = text.strip().lower()
+    if t.startswith('fxp-'):
+        body = t[4:]
+        is_complex = body.endswith('-complex')
+        if is_complex:
+            body = body[:-len('-complex')]
+        if not body or body[0] not in 'su':
+            raise ValueError(text)
+        signed = body[0] == 's'
+        w, f = body[1:].split('/')
+        return signed, int(w), int(f), is_complex
+    for pre, signed in (('uq', False), ('qu', False), ('q', True), ('s', True), ('u', False)):
+        if t.startswith(pre):
+            body = t[len(pre):]
+            if '.' in body:
+                m, n = body.split('.', 1)
+                m, n = int(m), int(n)
+            else:
+                m, n = int(body), 0
+            return signed, m + n, n, False
+    raise ValueError(text)
+
+
 # --------------------------------------------------------------------------- inference (C06)
 def frac_bits_needed(v):
     """fewest fraction bits making the dyadic rational v an integer code."""
@@ -306,6 +332,8 @@ def selftest():
     assert from_pattern(0b1111, True, 4) == -1 and from_pattern(0b1111, False, 4) == 15
     assert dtype_fxp(True, 16, 15) == 'fxp-s16/15' and dtype_fxp(False, 8, -2, True) == 'fxp-u8/-2-complex'
     assert dtype_q(True, 16, 15) == 'Q1.15' and dtype_q(False, 8, 2) == 'UQ6.2'
+    assert parse_dtype('fxp-s16/15') == (True, 16, 15, False) and parse_dtype('FXP-u8/-2-Complex') == (False, 8, -2, True)
+    assert parse_dtype('Q1.15') == (True, 16, 15, False) and parse_dtype('uq6.2') == (False, 8, 2, False) and parse_dtype('S8') == (True, 8, 0, False)
     assert minimal_format([F(5, 4)], True) == (4, 2)          # 1.25 -> code 5 at 2 frac bits -> s4/2
     assert minimal_format([F(-1)], True) == (1, 0) or minimal_format([F(-1)], True) == (1, 0)
     assert minimal_format([F(1)], True) == (2, 0)
